@@ -204,7 +204,7 @@ Definition bc_segment (code : list binstr) (pc stop : Z) (head : option Z) : lis
 
 (** ** certificates *)
 Record facts := { f_c : amap; f_d : list Z; f_t : amap; f_nz : list expr }.
-Inductive cert := CLoop (head back : Z) (inv : facts) | CIf (join : facts).
+Inductive cert := CLoop (head back : Z) (inv exitf : facts) | CIf (join : facts).
 
 Definition st_of_facts (f : facts) : sst :=
   {| s_ci := f_c f; s_cb := f_c f; s_d := f_d f; s_t := f_t f; s_nz := f_nz f; s_n := 0 |}.
@@ -256,7 +256,10 @@ Definition entails (w : Z) (st : sst) (f : facts) : bool :=
                         end) (f_t f)
   && forallb (fun q => subst_ok w st q && nonzero_in w st (subst_st w st q)) (f_nz f)).
 
-(** state after a loop without guard: the loop is only left at its back edge with a zero condition *)
+(** state at the back-edge exit of a loop: the loop is only left there with a zero condition.
+    A guarded loop is left either at its guard (from the entry state) or at the back edge: its exit
+    facts [exitf] are checked against both, so a loop that cannot be left at the back edge keeps
+    what was known before it *)
 Definition once_exit (w : Z) (stb : sst) (cond : Z) : sst :=
   if nonzero_in w stb (cell_i stb cond) then add_nz stb [] else stb.
 
@@ -279,7 +282,7 @@ Definition next_head (fuse : bool) (rest : list instr) (cs : list cert) : option
   match rest with
   | ILoop _ _ body true :: _ =>
       if fuse && is_nil body then None
-      else match cs with CLoop h _ _ :: _ => Some h | _ => None end
+      else match cs with CLoop h _ _ _ :: _ => Some h | _ => None end
   | _ => None
   end.
 
@@ -320,7 +323,7 @@ Fixpoint tv_block (fuel : nat) (w : Z) (fuse : bool) (code : list binstr)
                     end
                   else
                     match cs with
-                    | CLoop head back inv :: cs1 =>
+                    | CLoop head back inv exitf :: cs1 =>
                         let fi := st_of_facts inv in
                         let entry_ok :=
                           if once then nonzero_in w st1 (cell_i st1 cond) && (pc1 =? head)
@@ -332,7 +335,7 @@ Fixpoint tv_block (fuel : nat) (w : Z) (fuse : bool) (code : list binstr)
                           | _ => false
                           end in
                         if entry_ok && back_ok && (back + 1 <=? stop) && (head <=? back) && (0 <=? pc1)
-                           && entails w st1 inv
+                           && entails w st1 inv && (once || entails w st1 exitf)
                         then
                           let ent := add_nz fi (e_var (if memz cond (f_d inv) then axi cond else acell cond)) in
                           match tv_block fuel' w fuse code body head back ent cs1 with
@@ -340,7 +343,9 @@ Fixpoint tv_block (fuel : nat) (w : Z) (fuse : bool) (code : list binstr)
                               match after_move w code pc2 stb shift with
                               | Some (pc3, stb') =>
                                   if (pc3 =? back) && agree w stb' cond && entails w stb' inv
-                                  then tv_block fuel' w fuse code rest' (back + 1) stop (if once then once_exit w stb' cond else fi) cs2
+                                     && (once || entails w (once_exit w stb' cond) exitf)
+                                  then tv_block fuel' w fuse code rest' (back + 1) stop
+                                         (if once then once_exit w stb' cond else st_of_facts exitf) cs2
                                   else None
                               | None => None
                               end
